@@ -85,7 +85,51 @@ pub fn run(r: &mut Report) {
             }
         }
     }
-    r.case("fuzz-public-key-der-pem", json!({"inputs": n, "mutations": "truncation, byte substitution, chunk duplication; stride", "stride": stride_pub}), "no panic", format!("{:?}", panics), panics.is_empty());
+    // structure-aware: WELL-FORMED SubjectPublicKeyInfo documents assembled from parts - every supported algorithm identifier x key
+    // payloads of every awkward size (an empty bit string, one octet, every leading octet, off-by-one lengths, non-zero unused-bits
+    // count) - through the DER, the PEM and the JSON entry points
+    {
+        fn tlv(tag: u8, content: &[u8]) -> Vec<u8> {
+            let mut out = vec![tag];
+            let l = content.len();
+            if l < 128 { out.push(l as u8) } else if l < 256 { out.extend([0x81, l as u8]) } else { out.extend([0x82, (l >> 8) as u8, l as u8]) }
+            out.extend_from_slice(content); out
+        }
+        let algs: Vec<(&str, Vec<u8>)> = vec![
+            ("ed25519", tlv(0x30, &tlv(0x06, &[0x2b, 0x65, 0x70]))),
+            ("ec-p256", tlv(0x30, &[tlv(0x06, &[0x2a, 0x86, 0x48, 0xce, 0x3d, 0x02, 0x01]), tlv(0x06, &[0x2a, 0x86, 0x48, 0xce, 0x3d, 0x03, 0x01, 0x07])].concat())),
+            ("ec-no-curve", tlv(0x30, &tlv(0x06, &[0x2a, 0x86, 0x48, 0xce, 0x3d, 0x02, 0x01]))),
+            ("rsa", tlv(0x30, &[tlv(0x06, &[0x2a, 0x86, 0x48, 0x86, 0xf7, 0x0d, 0x01, 0x01, 0x01]), vec![0x05, 0x00]].concat())),
+            ("rsa-no-null", tlv(0x30, &tlv(0x06, &[0x2a, 0x86, 0x48, 0x86, 0xf7, 0x0d, 0x01, 0x01, 0x01]))),
+            ("unknown-oid", tlv(0x30, &tlv(0x06, &[0x2a, 0x03]))),
+            ("empty-algorithm", tlv(0x30, &[])),
+        ];
+        let mut payloads: Vec<Vec<u8>> = vec![vec![], vec![0], vec![4], vec![0, 0], vec![0, 4], vec![7, 0x80]];
+        for first in 0u16..=255 { let mut p = vec![0u8, first as u8]; p.extend(vec![0x11; 64]); payloads.push(p); }
+        for len in [1usize, 2, 31, 32, 33, 63, 64, 65, 66, 127, 128, 129, 255, 256, 270] { let mut p = vec![0u8]; p.extend(vec![0x22; len]); payloads.push(p.clone()); p[0] = 3; payloads.push(p); }
+        // an RSA-shaped payload (SEQUENCE of two INTEGERs) with degenerate numbers
+        for (nn, ee) in [(vec![], vec![]), (vec![0], vec![0]), (vec![0x00, 0x80], vec![1, 0, 1]), (vec![0x80], vec![0x80]), (vec![0; 256], vec![3])] {
+            let mut p = vec![0u8]; p.extend(tlv(0x30, &[tlv(0x02, &nn), tlv(0x02, &ee)].concat())); payloads.push(p);
+        }
+        for (an, alg) in &algs { for pl in &payloads {
+            let doc = tlv(0x30, &[alg.clone(), tlv(0x03, pl)].concat());
+            for s in [SignatureScheme::Ed25519, SignatureScheme::EcdsaP256Sha256, SignatureScheme::RsaSsaPssSha256] {
+                n += 3;
+                let (d2, s2) = (doc.clone(), s.clone());
+                if let Err(p) = no_panic(|| PublicKey::from_spki(&d2, s2).map(|k| { let _ = k.as_spki(); let _ = serde_json::to_string(&k); let _ = k.verify(b"m", &serde_json::from_value(json!({"keyid": "00".repeat(32), "sig": "00".repeat(64)})).unwrap()); })) {
+                    if panics.len() < 5 { panics.push(format!("from_spki well-formed {} payload {:02x?}: {}", an, &pl[..pl.len().min(8)], p)); } }
+                let pem = pem::encode(&pem::Pem::new("PUBLIC KEY", doc.clone()));
+                let (p2, s3) = (pem.clone(), s.clone());
+                if let Err(p) = no_panic(|| PublicKey::from_pem_spki(&p2, s3).map(|_| ())) { if panics.len() < 5 { panics.push(format!("from_pem_spki well-formed {} payload {:02x?}: {}", an, &pl[..pl.len().min(8)], p)); } }
+                let scheme_name = serde_json::to_value(&s).unwrap();
+                for kt in ["rsa", "ecdsa", "ed25519"] {
+                    let kj = json!({"keytype": kt, "scheme": scheme_name, "keyid_hash_algorithms": ["sha256", "sha512"], "keyval": {"public": pem, "private": ""}});
+                    if let Err(p) = no_panic(|| serde_json::from_value::<PublicKey>(kj.clone()).map(|_| ())) { if panics.len() < 5 { panics.push(format!("PublicKey JSON ({}) with well-formed {} payload {:02x?}: {}", kt, an, &pl[..pl.len().min(8)], p)); } }
+                }
+            }
+        } }
+    }
+    r.case("fuzz-public-key-der-pem", json!({"inputs": n, "mutations": "truncation, byte substitution, chunk duplication (stride); well-formed SubjectPublicKeyInfo assembled from every algorithm identifier x awkward key payloads", "stride": stride_pub}), "no panic", format!("{:?}", panics), panics.is_empty());
     let mut n = 0u64; let mut panics: Vec<String> = vec![];
     for file in ["ed25519/ed25519-1.pk8.der", "ecdsa/ec.pk8.der", "rsa/rsa-2048.pk8.der"] {
         let der = std::fs::read(format!("/repo/tests/{}", file)).unwrap();
